@@ -303,7 +303,7 @@ def run(chk):
             r0.bad(fq, fn.where(), "default tolerance `%s` is %s, not 0.0" % (pname, dv))
 
     total_rows, total_real, total_grid = run_subjects(chk, prog, tier)
-    rule_intersection_point(chk, prog)
+    chk.guard(rule_intersection_point, chk, prog)
     chk.extra["decision_tree_paths"] = total_rows
     chk.extra["realisable_sign_classes"] = total_real
     chk.extra["grid_tuples_classified"] = total_grid
